@@ -26,6 +26,7 @@ from labrea import (
     pipeline_step,
     switch,
 )
+from labrea.application import FunctionApplication, PartialApplication
 from labrea.cache import Cache, CacheGetFailure, MemoryCache
 
 from . import rt
@@ -441,6 +442,19 @@ def _plain_fn(name):
     return fn
 
 
+def _fapp_fn(name):
+    def fn(*args, **kw):
+        rt.call("fapp", name, args=args, **kw)
+        return ("fapp", name, tuple(freeze(a) for a in args), tuple(sorted((k, freeze(v)) for k, v in kw.items())))
+
+    fn.__name__ = name
+    return fn
+
+
+def _call_partial(p):
+    return p("extra")
+
+
 def _param_step_impl(name):
     def impl(x, **kw):
         rt.call("step", name, x=x, **kw)
@@ -679,6 +693,25 @@ class Program:
         ds = dataset.nocache(fn) if n.get("cache") == "nocache" else dataset(fn)
         holder["ds"] = ds
         return ds
+
+    def _b_fapp(self, n):
+        f = n["func"]
+        if f["t"] == "fn":
+            func = _fapp_fn(f["name"])
+        else:
+            a, b = _fapp_fn(f["names"][0]), _fapp_fn(f["names"][1])
+            first = {crepr(c) for c in f["first"]}
+
+            def pick(v):
+                return a if crepr(v) in first else b
+
+            pick.__name__ = f"pick_{n['id']}"
+            func = self.ref(f["n"]).apply(pick)  # an Evaluatable in the FUNCTION position
+        pos = [self.ref(p["n"]) if "n" in p else copy.deepcopy(p["v"]) for p in n["pos"]]
+        kw = {key: self.ref(v) for key, v in n["kw"].items()}
+        if n["form"] == "partial":
+            return PartialApplication(func, *pos, **kw).apply(_call_partial)
+        return FunctionApplication(func, *pos, **kw)
 
     def _b_namespace(self, n):
         body, ann = {}, {}
